@@ -194,8 +194,11 @@ def check_e2e(ck: Check, strs):
     # executemany = one execute per parameter set, in order
     rows = [(1000 + i, s, "m" if i % 2 else "$v1") for i, s in enumerate(sel[:40])]
     cur.execute("create table c08_m (id int, v varchar, w varchar)")        # its own table: in the thorough tier c08_t already holds ids >= 1000
-    cur.executemany("insert into c08_m values (%s, %s, %s)", rows)
-    r = cur.execute("select id, v, w from c08_m order by id").fetchall()
+    try:
+        cur.executemany("insert into c08_m values (%s, %s, %s)", rows)
+        r = cur.execute("select id, v, w from c08_m order by id").fetchall()
+    except Exception as e:  # noqa: BLE001
+        r = [f"{type(e).__name__}: {str(e)[:150]}"]
     ck.cov["evaluations"] += 1
     if r != rows:
         report(f"executemany of {len(rows)} rows stored {len(r)} rows / different values", {"rows": repr(rows[:5]), "observed": repr(r[:5])})
